@@ -563,3 +563,13 @@ THEOREMS = THEOREMS + ["OdxVerif.Codec." + t for t in [
     "descs2R_roundtrip_msg_cur", "Desc2R.okM", "Desc2R.decPre_of", "Descs2R.decPre_top", "Descs2R.okAllTop",
     "Comp.ofU16LE_ok", "U16.encodeParam_eq", "U16.decodeParam_eq", "Comp.ofU16LE_val",
     "exRes_ok", "exRes_wire", "exRes_enc", "exResOverlap_ok", "exNrcR_ok", "exU16Req_ok", "exU16Req_enc"]]
+# W25 (wire condition of C01_roundtrip_nested2R derived from the layout: Descs2R.resPre_of_layout / resFree; closure of Described2 over
+# arbitrary leaf classes: Described2X, UTF-16LE leaves inside field items and multiplexer cases: Described2U) — appended
+LEAN_TARGETS = LEAN_TARGETS + ["OdxVerif.Props.C01Nested2R2", "OdxVerif.Props.C01Nested2U"]
+THEOREMS = THEOREMS + ["OdxVerif.Codec." + t for t in [
+    "C01_wire_condition_of_layout", "C01_roundtrip_nested2R_reserved_free", "C01_roundtrip_nested2R_reserved_free_whole",
+    "Descs2R.resPre_of_layout", "Desc2R.resPre_of_zero", "Descs2R.resPre_of_zero_top", "Descs2R.resAll_of_resFree",
+    "RtHyp.seq_left", "RtHyp.seq_right", "RtHyp.sized", "reserved_resPre_of_zero",
+    "exRes_free", "exU16Req_free", "exResBS_ok", "exResBS_enc", "exResBS_free",
+    "C01_roundtrip_nested2U", "C01_roundtrip_nested2U_whole", "C01_roundtrip_nested2U_of_described2", "Described2X.ok", "Described2X.mono",
+    "Described2U.ok", "DescribedTopU.ok", "LeafU.ok", "exU_described", "exU_enc", "C01_reserved_in_field_items_model"]]
